@@ -218,11 +218,18 @@ def run(chk: Check):
                     chk.fail(f"{name}: returned candidates do not have the lowest surrogate predictions", case)
     # ---------------- (c) best-batch
     n_c = 60 if chk.tier == "quick" else 800
+    bb_reuse = {}
     for _ in range(n_c):
         sp, bounds, prec = gen_space(rng, chk)
         bs = rng.randint(1, 5)
         rng_range = rng.randint(2, 8)
-        smp = BestBatchSampler(bs, random_state=0, a=rng.choice([1.0, 3.0, 0.5]), b=rng.choice([1.0, 2.0]), perturbation_range=rng_range)
+        if bb_reuse.get("obj") is not None and rng.random() < 0.4:
+            # the same sampler object on another search space (other dimension)
+            smp = bb_reuse["obj"]; bs, rng_range = int(smp.batch_size), int(smp.perturbation_range)
+            chk.count("bestbatch:object_reused_across_spaces")
+        else:
+            smp = BestBatchSampler(bs, random_state=0, a=rng.choice([1.0, 3.0, 0.5]), b=rng.choice([1.0, 2.0]), perturbation_range=rng_range)
+            bb_reuse["obj"] = smp
         g = install(smp, RecGen(rng.randrange(10 ** 6)))
         pts, losses = gen_history(rng, sp, rng.randint(bs, 12))
         if rng.random() < 0.4:
@@ -231,8 +238,14 @@ def run(chk: Check):
             pool = [float("inf"), fmax, float("inf"), fmax, -fmax, -float("inf"), 1e300, 1.0, 2.0]
             losses = np.array([rng.choice(pool) for _ in range(len(pts))])
             chk.count("bestbatch:extreme_losses")
-        with recording_snaps() as rec, quiet():
-            out = smp.sample_batch(bs, sp, pts, losses)
+        try:
+            with recording_snaps() as rec, quiet():
+                out = smp.sample_batch(bs, sp, pts, losses)
+        except Exception as e:  # noqa: BLE001
+            chk.case(["bb-raise", bounds, prec, bs, rng_range], True, {"batch_size": bs, "raised": type(e).__name__})
+            chk.fail(f"BestBatchSampler.sample_batch raised {type(e).__name__}: {str(e)[:100]} on an admissible history and search space",
+                     {"case": {"kind": "bestbatch", "bounds": bounds, "precision": prec, "batch_size": bs, "range": rng_range}})
+            continue
         log = g.log
         # reconstruct the tape: integers(0,bs,size=bs) parents; per row: choice(dims,(k,),replace=False), then per coordinate integers(1,range), integers(0,2)
         parents = [int(x) for x in np.ravel(log[0][2])]
